@@ -229,6 +229,26 @@ let mutate r (l : int list) : int list =
 
 let ints_of_bytes (l : Byte0.byte list) = List.map int_of_byte l
 
+(* field-aware variant: leave the length words of the entries alone (their offsets are given), so
+   that the damage lands in ids, versions, augmentation strings/data, LEBs and addresses *)
+let mutate_body r (starts : int list) (l : int list) : int list =
+  let a = Array.of_list l in
+  let n = Array.length a in
+  if n = 0 then [] else begin
+    let prot i = List.exists (fun s -> i >= s && i < s + 4) starts in
+    let rec idx k = let i = rand_int r n in if prot i && k > 0 then idx (k - 1) else i in
+    let times = 1 + rand_int r 3 in
+    for _ = 1 to times do
+      let i = idx 10 in
+      if not (prot i) then
+        a.(i) <- (match rand_int r 6 with
+          | 0 -> rand_int r 256 | 1 -> pick r [| 0; 0xff; 0x80; 0x7f; 1; 4; 8 |]
+          | 2 -> a.(i) lxor (1 lsl rand_int r 8) | 3 -> pick r [| 0x7a; 0x4c; 0x50; 0x52; 0x53; 0x65 |]
+          | 4 -> pick_enc r | _ -> a.(i) lxor 0x80)
+    done;
+    Array.to_list a
+  end
+
 (* probe addresses around every FDE the model can decode, plus a few random ones *)
 let probes r dbg (c : cfg) sec : Z.t list =
   let sc = scfg_of c in
@@ -622,7 +642,9 @@ let () =
       let c = if raw && rand_int r 10 = 0 then { c with asz = rand_int r 20 } else c in
       let es = rand_entries r c in
       let bytes = ints_of_bytes (encode c es) in
-      let bytes = if raw then (let b = mutate r bytes in if rand_int r 3 = 0 then mutate r b else b) else bytes in
+      let starts = List.map int_of_n (S.offsets (sparams_of c) es) in
+      let bytes = if raw then (if rand_int r 3 <> 0 then mutate_body r starts bytes
+                               else (let b = mutate r bytes in if rand_int r 3 = 0 then mutate r b else b)) else bytes in
       let bytes = if raw && rand_int r 15 = 0 then rand_bytes r (rand_int r 48) else bytes in
       case c bytes
     done in
@@ -642,8 +664,9 @@ let () =
       let sec = encode c es in
       let bytes = ints_of_bytes sec in
       if raw then begin
-        let b = mutate r bytes in
-        let b = if rand_int r 3 = 0 then mutate r b else b in
+        let starts = List.map int_of_n (S.offsets (sparams_of c) es) in
+        let b = if rand_int r 3 <> 0 then mutate_body r starts bytes else mutate r bytes in
+        let b = if rand_int r 4 = 0 then mutate r b else b in
         case c b false (probes r false c (bytes_of_ints b))
       end else case c bytes true (probes r false c sec)
     done in
